@@ -4,7 +4,7 @@ worker's own scratch worktree of /repo (under /tmp/mw, removed at the end), run 
 expect exit 0.  /repo and /verif/evidence are not touched.  usage: benign_par.py [-j N] [patch name prefixes...]"""
 import json, os, shutil, subprocess, sys, threading, queue, glob
 ROOT = '/verif'
-BASE = '/tmp/mw'
+BASE = '/tmp/mw_benign_%d' % os.getpid()
 args = sys.argv[1:]
 J = 6
 if args and args[0] == '-j':
@@ -26,7 +26,7 @@ def sh(*a, **kw):
 
 
 def setup(i):
-    w = '%s/b%d' % (BASE, i)
+    w = '%s/%d' % (BASE, i)
     shutil.rmtree(w, ignore_errors=True)
     os.makedirs(w)
     sh('git', '-C', '/repo', 'worktree', 'add', '--detach', w + '/repo', 'HEAD')
@@ -72,8 +72,7 @@ for t in ths:
 for t in ths:
     t.join()
 sh('git', '-C', '/repo', 'worktree', 'prune')
-if os.path.isdir(BASE) and not os.listdir(BASE):
-    os.rmdir(BASE)
+shutil.rmtree(BASE, ignore_errors=True)
 print('benign: %d patches x %d checks, %d not quiet' % (len(patches), len(ids), len(bad)))
 json.dump(dict(patches=[os.path.basename(p) for p in patches], checks=ids, not_quiet=bad), open(ROOT + '/selftest/BENIGN_RESULTS.json', 'w'), indent=1)
 sys.exit(1 if bad else 0)
